@@ -325,9 +325,16 @@ func (in *Interp) appendOp(th *Thread, b *ssa.Builtin, args []Value) (Value, boo
 			}
 			return SliceV{dst.Back, dst.Off, newLen, dst.Cap}, true
 		}
-		in.noteAlloc(in.bv64(newLen * in.sizeof(et)))
+		// growth as the Go runtime does it for small slices: the capacity doubles
+		// (so that len and cap differ after an append, as they do natively; a
+		// model with cap == len hides every cap-for-len confusion)
+		newCap := newLen
+		if dst.Cap > 0 && 2*dst.Cap > newCap {
+			newCap = 2 * dst.Cap
+		}
+		in.noteAlloc(in.bv64(newCap * in.sizeof(et)))
 		in.objCount++
-		nb := &Backing{id: in.objCount, cells: make([]*Cell, newLen)}
+		nb := &Backing{id: in.objCount, cells: make([]*Cell, newCap)}
 		for i := 0; i < dst.Len; i++ {
 			nb.cells[i] = in.newCell(et)
 			in.store(nb.cells[i], in.load(dst.Back.cells[dst.Off+i]))
@@ -336,7 +343,10 @@ func (in *Interp) appendOp(th *Thread, b *ssa.Builtin, args []Value) (Value, boo
 			nb.cells[dst.Len+i] = in.newCell(et)
 			in.store(nb.cells[dst.Len+i], v)
 		}
-		return SliceV{nb, 0, newLen, newLen}, true
+		for i := newLen; i < newCap; i++ {
+			nb.cells[i] = in.newCell(et)
+		}
+		return SliceV{nb, 0, newLen, newCap}, true
 	}
 	panic(abortf("UNSUPPORTED", "append to %T", args[0]))
 }
